@@ -3,6 +3,8 @@
 package props
 
 import (
+	"strings"
+	"sort"
 	"fmt"
 	"time"
 
@@ -245,6 +247,68 @@ func runC09(r *vk.Run) {
 			c.Sample("windows", map[string]any{"query": text, "records": len(recs), "main_grid": gridText(times), "shared_T": tsText(shared)})
 		}
 	})
+	// Over the Docker storage: asking the daemon for the window must lose nothing. The same query is
+	// evaluated against a fake daemon that honours since/until the way dockerd does (seconds with an
+	// optional decimal fraction, inclusive) and against one that serves the whole log; the results
+	// must be equal. Window ends (T_last - offset) are whole seconds, because the request's until is
+	// specified as the end truncated to a second (C02); starts carry sub-second parts of every
+	// magnitude (.05, .5, .005 ...).
+	r.Phase("daemon", r.N(600, 100000), func(c *vk.Case) {
+		rng := c.Rng
+		cs := CSpec{ID: "id0", Name: "/c0", Image: "img", State: "running", Labels: map[string]string{}}
+		n := rng.Range(10, 60)
+		for i := 0; i < n; i++ {
+			ts := metricT0 + int64(rng.Intn(400))*5e7 // 50 ms lattice over 20 s
+			cs.Frames = append(cs.Frames, Frame{Type: 1, TS: ts, Body: fmt.Sprintf("v=%d i=%d", rng.Intn(9)+1, i)})
+		}
+		sort.SliceStable(cs.Frames, func(i, j int) bool { return cs.Frames[i].TS < cs.Frames[j].TS })
+		inv := []CSpec{cs}
+		rg := vk.Pick(rng, []time.Duration{time.Second, 2 * time.Second, 950 * time.Millisecond, 1500 * time.Millisecond, 5 * time.Second})
+		off := vk.Pick(rng, []time.Duration{0, 0, time.Second, 2 * time.Second})
+		frac := vk.Pick(rng, []int64{0, 50e6, 5e6, 500e6, 950e6, 1e6, 99e6, 100e6, 123456789, 7})
+		start := metricT0 + int64(rng.Range(2, 12))*1e9 + frac
+		step := vk.Pick(rng, []time.Duration{time.Second, 2 * time.Second, 500 * time.Millisecond})
+		end := (start/1e9 + int64(rng.Range(1, 6))) * 1e9 // whole second, not necessarily on the grid
+		offTxt := ""
+		if off > 0 {
+			offTxt = " offset " + durText(off)
+		}
+		fn := vk.Pick(rng, []string{"count_over_time(%s[%s]%s)", "sum by (container) (count_over_time(%s[%s]%s))", "sum(sum_over_time(%s | logfmt | unwrap v [%s]%s))", "rate(%s[%s]%s)"})
+		q := fmt.Sprintf(fn, `{container="c0"} | drop msg`, durText(rg), offTxt)
+		if strings.Contains(fn, "unwrap") {
+			q = fmt.Sprintf(fn, `{container="c0"}`, durText(rg), offTxt)
+		}
+		p := EvalP{Start: start, End: end, Step: step}
+		if rng.Chance(1, 5) {
+			p = EvalP{Start: end, End: end} // instant query on a whole second
+		}
+		run := func(filter bool) (string, error) {
+			fd := newFakeDocker(inv)
+			fd.FilterByTime = filter
+			res, err := evalQuery(dockerQuerier(fd), q, p)
+			c.Eval(1)
+			if err != nil {
+				return "", err
+			}
+			return res.Canonical(), nil
+		}
+		all, err1 := run(false)
+		win, err2 := run(true)
+		det := map[string]any{"query": q, "params": p, "inventory": inv, "whole_log": all, "daemon_window": win}
+		if err1 != nil || err2 != nil {
+			c.Fail("", fmt.Sprintf("query %s failed: %v / %v", q, err1, err2), det)
+			return
+		}
+		if all != win {
+			c.Fail("", fmt.Sprintf("%s (start %s): result over a daemon that honours since/until differs from the result over the whole log: samples of some window were never requested", q, tsText(start)), det)
+			return
+		}
+		c.Count("daemon_window_comparisons", 1)
+		if frac != 0 && len(all) > 2 {
+			c.Nontrivial(fmt.Sprintf("daemon|%d|%s", c.Idx, q))
+		}
+	})
+	r.Require("daemon_window_comparisons", 300)
 	r.Require("compared_points", 5000)
 	r.Require("edge_samples", 1000)
 	r.Require("shared_T_comparisons", 2000)
